@@ -56,6 +56,9 @@ HOSTILE = {
     "deepNesting": ["(" * 1000 + "a" + ")" * 1000, "[" * 500 + "a" + "]" * 500, "((((" * 200],
     "lineContinuation": ["\\\ntarget < 3", "target \\\n < 3", "\\\n"],
     "longList": [", ".join("c%05d" % number for number in range(20000)), ", ".join(str(2 * number) for number in range(2000))],  # (ranges compare every item with every other one: kept short)
+    # a count expression that is fine for count 0 (the test at declaration) and cannot be evaluated for the count the data give
+    "countDependent": ["target <= 12 / (count - 1)", "target <= 12 / (count - 2)", "target <= 12 / (count - 3)", "other <= 12 / (count - 1)",
+                       "other <= 12 / (count - 2)", "target < (1, 2, 3)[count * 2]", "target < 2.0 ** (400 * count)"],
     "builtinName": ["target or exit(7)", "target == id", "len", "target < len(dir())", "print"],
 }
 RULES = {"Integer": "0...99", "Decimal": "0...99.5", "Choice": "a, b", "Constant": "a", "DateTime": "YYYY-MM-DD", "Pattern": "a*",
@@ -210,13 +213,15 @@ def _job_unguarded(job):
                     if isinstance(item, Exception) and classify(item) != "DataError":
                         problems.append("%s: rows() yields %s for data %r" % (what, classify(item), text))
             except Exception as error:  # noqa
-                if classify(error) != "DataError":
+                # (a problem of the CID may show only when data are validated -- a count expression that cannot be evaluated
+                # for the count the data give: "an interface error (problem in the CID) or a data error")
+                if classify(error) not in ("DataError", "InterfaceError"):
                     problems.append("%s: rows(on_error=%s) lets escape %s for data %r under CID %r" % (
                         what, mode, classify(error)[6:], text, rows))
         try:
             cutplace.validate(cid, io.StringIO(text, newline=""))
         except Exception as error:  # noqa
-            if classify(error) != "DataError":
+            if classify(error) not in ("DataError", "InterfaceError"):
                 problems.append("%s: validate() lets escape %s for data %r" % (what, classify(error)[6:], text))
         # the same data as a file (the declared encoding matters only there)
         folder = core.workdir("c10file%d" % os.getpid())
@@ -229,7 +234,7 @@ def _job_unguarded(job):
                     if isinstance(item, Exception) and classify(item) != "DataError":
                         problems.append("%s: rows(path) yields %s" % (what, classify(item)))
             except Exception as error:  # noqa
-                if classify(error) != "DataError":
+                if classify(error) not in ("DataError", "InterfaceError"):
                     problems.append("%s: rows(path) lets escape %s for data %r under CID %r" % (what, classify(error)[6:], text, rows))
         finally:
             core.cleanup(folder)
@@ -245,7 +250,7 @@ def _job_unguarded(job):
                             if isinstance(item, Exception) and classify(item) != "DataError":
                                 problems.append("%s: rows() yields %s for the %s cell %r" % (what, classify(item), fmt, data[0]))
                     except Exception as error:  # noqa
-                        if classify(error) != "DataError":
+                        if classify(error) not in ("DataError", "InterfaceError"):
                             problems.append("%s: rows(on_error=%s) lets escape %s for the %s cell %r under CID %r" % (
                                 what, mode, classify(error)[6:], fmt, data[0], rows))
                 from cutplace import applications
